@@ -255,6 +255,96 @@ Theorem gaps_blocks_length (l : list A) : length (inner_gaps sp l) = pred (lengt
 Proof. apply gaps_count. Qed.
 End Reference.
 
+(* ---- the reference functions commute with a map over the items ---- *)
+Section MapRef.
+Context {A B : Type}.
+Variable f : A -> B.
+
+Lemma map_removelast {X Y} (g : X -> Y) (l : list X) : map g (removelast l) = removelast (map g l).
+Proof.
+  induction l as [|x l IH]; [reflexivity|]. destruct l as [|y l]; [reflexivity|].
+  cbn [removelast map] in *. now rewrite IH.
+Qed.
+
+Lemma map_last_nil (l : list (list A)) : map f (last l []) = last (map (map f) l) [].
+Proof.
+  induction l as [|x l IH]; [reflexivity|]. destruct l as [|y l]; [reflexivity|].
+  cbn [last map] in *. exact IH.
+Qed.
+
+Lemma chop_fuel_map : forall fuel n (w : list A),
+  chop_fuel fuel n (map f w) = map (map f) (chop_fuel fuel n w).
+Proof.
+  induction fuel as [|k IH]; intros n w; cbn [chop_fuel map]; [reflexivity|].
+  rewrite map_length. destruct (Nat.leb (length w) n); [reflexivity|].
+  cbn [map]. rewrite firstn_map, <- IH, skipn_map. reflexivity.
+Qed.
+
+Lemma chop_map n (w : list A) : chop n (map f w) = map (map f) (chop n w).
+Proof. unfold chop. rewrite map_length. apply chop_fuel_map. Qed.
+
+Lemma wrap_go_map n : forall (rest : list (A * list A)) (cur : list A),
+  wrap_go n (map f cur) (map (fun jw => (f (fst jw), map f (snd jw))) rest) =
+  map (map f) (wrap_go n cur rest).
+Proof.
+  induction rest as [|[j w] r IH]; intros cur; cbn [wrap_go map fst snd]; [reflexivity|].
+  rewrite !map_length. destruct (Nat.leb (length cur + 1 + length w) n).
+  - rewrite <- IH. f_equal. rewrite map_app. reflexivity.
+  - cbn [map]. f_equal. rewrite map_app, chop_map. f_equal.
+    + apply eq_sym, map_removelast.
+    + rewrite <- IH. f_equal. apply eq_sym, map_last_nil.
+Qed.
+
+Lemma combine_map_both {X Y X' Y'} (g : X -> X') (h : Y -> Y') (a : list X) (b : list Y) :
+  combine (map g a) (map h b) = map (fun p => (g (fst p), h (snd p))) (combine a b).
+Proof.
+  revert b. induction a as [|x a IH]; intros [|y b]; cbn; try reflexivity. now rewrite IH.
+Qed.
+
+Lemma greedy_wrap_map n (mk : list A -> A) (mk' : list B -> B) words gaps :
+  (forall g, f (mk g) = mk' (map f g)) ->
+  map (map f) (greedy_wrap n mk words gaps) =
+  greedy_wrap n mk' (map (map f) words) (map (map f) gaps).
+Proof.
+  intros Hmk. unfold greedy_wrap, wrap_items. destruct words as [|w ws]; [reflexivity|].
+  cbn [map]. rewrite map_app, chop_map, <- (map_removelast (map f)). f_equal.
+  rewrite <- map_last_nil, <- wrap_go_map. f_equal.
+  rewrite (map_map (map f) mk').
+  rewrite (map_ext (fun g => mk' (map f g)) (fun g => f (mk g))) by (intros g; now rewrite Hmk).
+  rewrite <- (map_map mk f). now rewrite combine_map_both.
+Qed.
+
+Variable sp : B -> bool.
+Definition spf (x : A) : bool := sp (f x).
+
+Lemma blocks_go_map : forall (l cur : list A),
+  blocks_go sp (map f l) (map f cur) = map (map f) (blocks_go spf l cur).
+Proof.
+  induction l as [|x r IH]; intros cur; cbn [blocks_go map].
+  - destruct cur as [|c cur]; [reflexivity|]. cbn [map]. now rewrite map_rev.
+  - unfold spf at 1. destruct (sp (f x)).
+    + specialize (IH []). cbn [map] in IH. destruct cur as [|c cur]; cbn [map]; [exact IH|].
+      rewrite IH. now rewrite map_rev.
+    + apply (IH (x :: cur)).
+Qed.
+
+Lemma gaps_go_map : forall (l : list A) seen (cur : list A),
+  gaps_go sp (map f l) seen (map f cur) = map (map f) (gaps_go spf l seen cur).
+Proof.
+  induction l as [|x r IH]; intros seen cur; cbn [gaps_go map]; [reflexivity|].
+  unfold spf at 1. destruct (sp (f x)).
+  - apply (IH seen (x :: cur)).
+  - pose proof (IH true []) as IH0. cbn [map] in IH0.
+    destruct cur as [|c cur]; cbn [map]; [exact IH0|].
+    destruct seen; [|exact IH0]. cbn [map]. rewrite IH0. now rewrite map_rev.
+Qed.
+
+Lemma blocks_map (l : list A) : blocks sp (map f l) = map (map f) (blocks spf l).
+Proof. apply (blocks_go_map l []). Qed.
+Lemma inner_gaps_map (l : list A) : inner_gaps sp (map f l) = map (map f) (inner_gaps spf l).
+Proof. apply (gaps_go_map l false []). Qed.
+End MapRef.
+
 (* ====================================================================== *)
 (* B. the whitespace scanner of the model against blocks / inner_gaps         *)
 Section Scanner.
@@ -527,6 +617,12 @@ Proof.
   revert b. induction a as [|x a IH]; intros [|y b]; cbn; try reflexivity. now rewrite IH.
 Qed.
 
+Lemma combine_map2_swap {X Y X' Y'} (g : X -> X') (h : Y -> Y') (a : list X) (b : list Y) :
+  combine (map h b) (map g a) = map (fun p => (h (snd p), g (fst p))) (combine a b).
+Proof.
+  revert b. induction a as [|x a IH]; intros [|y b]; cbn; try reflexivity. now rewrite IH.
+Qed.
+
 Section Main.
 Variable is_space : char -> bool.
 Definition cell_space (cl : cell) : bool := is_space (fst cl).
@@ -596,6 +692,6 @@ Proof.
         apply (GS (cells s)). now apply in_map. }
     exists out. split; [exact O1|]. rewrite O2.
     unfold greedy_wrap, wrap_items. cbn [map]. rewrite P3, P4. f_equal. f_equal.
-    rewrite map_map, combine_map2. apply map_ext. intros [w s]. reflexivity.
+    rewrite map_map, combine_map2_swap. apply map_ext. intros [w s]. reflexivity.
 Qed.
 End Main.
